@@ -28,6 +28,26 @@ def run(tier, seed, rng):
     proof_stage(res, 'C18')
     c = generate(tier, rng)
     out = correspond(res, c, runner.Workspace('c18'), label='modeB')
+    # the same with the phf-backed matcher (field-less enums; with and without case-insensitive variants)
+    import copy
+    cp = Corpus()
+    pen = []
+    for e in c.especs:
+        if e.err and all(v.kind == 'unit' for v in e.variants) and not e.generics and len(pen) < (12 if tier == 'quick' else 60):
+            t = copy.deepcopy(e)
+            t.id, t.name, t.phf = e.id + 'p', e.name + 'P', True
+            if len(pen) % 2 == 0:
+                t.ci = False
+                for v in t.variants:
+                    v.ci = None   # no case-insensitive arm at all: the phf lookup is the only matcher
+            pen.append(t)
+    if pen:
+        pinfo = strcorpus.query_model(pen)
+        for t in pen:
+            cp.add(t, in_domain=pinfo[t.id]['nooverlap'])
+            for s, cls in strcorpus.parse_inputs(rng, t, pinfo[t.id], tier, max_full=4):
+                cp.op(t.id, 'parse %s' % hx(s), 'phf-custom:' + cls)
+        correspond(res, cp, runner.Workspace('c18phf', features=('derive', 'phf')), label='modeB-phf')
     # direct oracle on the implementation's answers: the error carries the input byte for byte, one call; no call on success
     bad = 0
     for o, got in zip(c.ops, out['impl']):
